@@ -209,6 +209,9 @@ def standin_resolution(tier, seed):
                 "controlled": lambda o: o.controlled_by(q[1]), "sub-circuit": lambda o: cirq.CircuitOperation(cirq.FrozenCircuit(o)),
                 "controlled and tagged": lambda o: o.with_classical_controls("m").with_tags("t"), "moment": lambda o: cirq.Moment(o), "circuit": lambda o: cirq.Circuit(o, cirq.Z(q[1]) ** b),
             }
+            # a symbol outside the body: the repetition count of a sub-circuit, the assignments a sub-circuit carries
+            wrappers["sub-circuit repeated a symbolic number of times"] = lambda o: cirq.CircuitOperation(cirq.FrozenCircuit(cirq.X(q[0])), repetitions=a)
+            wrappers["sub-circuit carrying an assignment to the symbol"] = lambda o: cirq.CircuitOperation(cirq.FrozenCircuit(cirq.X(q[0]) ** c), param_resolver={c: a})
             if hasattr(cirq, "If"):
                 wrappers["if"] = lambda o: cirq.If("m", o)
             for wname, wrap_ in wrappers.items():
